@@ -582,6 +582,101 @@ func normalizeMD(ed saml.EntityDescriptor) string {
 	return string(b)
 }
 
+// entitiesFixpoint: the same for an EntitiesDescriptor (aggregate), handed to the encoder by value and by pointer
+func (c *Ctx) entitiesFixpoint(es saml.EntitiesDescriptor) {
+	orc := ""
+	impl := safely(func() string {
+		byValue, err := xml.Marshal(es)
+		if err != nil {
+			return "err marshal"
+		}
+		byPointer, err := xml.Marshal(&es)
+		if err != nil {
+			return "err marshal"
+		}
+		if !bytes.Equal(byValue, byPointer) {
+			orc = "key=c15-entities-by-value an EntitiesDescriptor marshals differently by value and by pointer"
+			return "ok"
+		}
+		var v1 saml.EntitiesDescriptor
+		if err := xml.Unmarshal(byValue, &v1); err != nil {
+			orc = "key=c15-metadata-unparseable generated EntitiesDescriptor does not re-parse: " + err.Error()
+			return "err reparse"
+		}
+		g2, err := xml.Marshal(v1)
+		if err != nil {
+			return "err marshal2"
+		}
+		var v2 saml.EntitiesDescriptor
+		if err := xml.Unmarshal(g2, &v2); err != nil {
+			orc = "key=c15-metadata-unparseable second generation of an EntitiesDescriptor does not re-parse: " + err.Error()
+			return "err reparse2"
+		}
+		g3, _ := xml.Marshal(v2)
+		if !bytes.Equal(g2, g3) || !reflect.DeepEqual(v1, v2) {
+			orc = "key=c15-metadata-no-fixpoint an EntitiesDescriptor keeps changing after one marshal/unmarshal generation"
+		}
+		// validity instant (rounded to the millisecond) and cache duration of the aggregate, member entity IDs in order
+		if (es.ValidUntil == nil) != (v1.ValidUntil == nil) || es.ValidUntil != nil && !es.ValidUntil.Round(time.Millisecond).Equal(*v1.ValidUntil) {
+			orc = "key=c15-metadata-not-preserved validUntil of an EntitiesDescriptor is not preserved"
+		}
+		if (es.CacheDuration == nil) != (v1.CacheDuration == nil) || es.CacheDuration != nil && *es.CacheDuration != *v1.CacheDuration {
+			orc = "key=c15-metadata-not-preserved cacheDuration of an EntitiesDescriptor is not preserved"
+		}
+		var ids func(e saml.EntitiesDescriptor) []string
+		ids = func(e saml.EntitiesDescriptor) []string {
+			var out []string
+			for _, n := range e.EntitiesDescriptors {
+				out = append(out, "("+strings.Join(ids(n), ",")+")")
+			}
+			for _, d := range e.EntityDescriptors {
+				out = append(out, d.EntityID)
+			}
+			return out
+		}
+		if strings.Join(ids(es), ",") != strings.Join(ids(v1), ",") {
+			orc = "key=c15-metadata-not-preserved members of an EntitiesDescriptor are not preserved"
+		}
+		return "ok"
+	})
+	c.count("metadata-kind", "entities")
+	c.emitOneWay("c15-entities", nil, impl, orc)
+}
+
+func (c *Ctx) randEntities(depth int) saml.EntitiesDescriptor {
+	var es saml.EntitiesDescriptor
+	if c.chance(0.6) {
+		t := baseTime.Add(time.Duration(c.rng.Int63n(int64(1000*time.Hour)))).In(time.FixedZone("x", (c.rng.Intn(25)-12)*3600))
+		if c.chance(0.5) {
+			t = t.Truncate(time.Millisecond).UTC()
+		}
+		es.ValidUntil = &t
+	}
+	if c.chance(0.6) {
+		d := time.Duration(c.rng.Int63n(int64(100*time.Hour))) + time.Duration(c.rng.Intn(3))*time.Nanosecond
+		if c.chance(0.5) {
+			d = d.Truncate(time.Second)
+		}
+		if d == 0 {
+			d = time.Hour
+		}
+		es.CacheDuration = &d
+	}
+	if c.chance(0.3) {
+		n := "aggregate"
+		es.Name = &n
+	}
+	for i := c.rng.Intn(3); i > 0; i-- {
+		es.EntityDescriptors = append(es.EntityDescriptors, c.randEntityDescriptor())
+	}
+	if depth > 0 {
+		for i := c.rng.Intn(2); i > 0; i-- {
+			es.EntitiesDescriptors = append(es.EntitiesDescriptors, c.randEntities(depth-1))
+		}
+	}
+	return es
+}
+
 func (c *Ctx) genC15Metadata() {
 	n := 300
 	if !c.quick() {
@@ -589,6 +684,9 @@ func (c *Ctx) genC15Metadata() {
 	}
 	for i := 0; i < n; i++ {
 		c.metadataFixpoint("generated", c.randEntityDescriptor(), false)
+	}
+	for i := 0; i < n/3; i++ {
+		c.entitiesFixpoint(c.randEntities(2))
 	}
 	// what the library itself publishes
 	saml.TimeNow = func() time.Time { return baseTime.Add(time.Duration(c.rng.Intn(1000)) * time.Millisecond) }
